@@ -543,6 +543,11 @@ func (e *Exec) applyContractFull(con *Contract, fn *ssa.Function, sig *types.Sig
 	}
 	if con.Functional != "" && len(results) == 1 && len(results[0].S) == 1 {
 		e.assume("(= " + results[0].S[0] + " " + e.functionalTerm(pre, con.Functional, args[:nargs], slotsOf(results[0].T)[0].Sort) + ")")
+	} else if con.Functional != "" && len(results) == 1 {
+		// multi-slot result (slice: reference, length, capacity): one function per slot
+		for i, sd := range slotsOf(results[0].T) {
+			e.assume("(= " + results[0].S[i] + " " + e.functionalTerm(pre, fmt.Sprintf("%s!%d", con.Functional, i), args[:nargs], sd.Sort) + ")")
+		}
 	}
 	for _, en := range con.Ensures {
 		if !en.activeFor(e.Prop) {
@@ -1037,6 +1042,9 @@ func (e *Exec) functionalTerm(s *State, name string, args []Value, resSort strin
 	if !e.vc.declared[fn] && !e.discovery {
 		e.vc.declared[fn] = true
 		e.vc.add("(declare-fun " + fn + " (" + strings.Join(sorts, " ") + ") " + resSort + ")")
+	}
+	if len(terms) == 0 {
+		return fn
 	}
 	return "(" + fn + " " + strings.Join(terms, " ") + ")"
 }
